@@ -357,13 +357,17 @@ def _decide(pid: str, tier: str, seed: int, reg: Any, own: list, results: dict, 
             reported.append(v)
 
     wall = time.time() - t0
-    os.makedirs(os.path.join(VERIF, "replays", pid), exist_ok=True)
+    scratch = os.environ.get("VF_SCRATCH_OUT")  # mutant runs: keep committed evidence / replays untouched
+    ev_dir = os.path.join(scratch, "evidence") if scratch else os.path.join(VERIF, "evidence")
+    rp_dir = os.path.join(scratch, "replays", pid) if scratch else os.path.join(VERIF, "replays", pid)
+    os.makedirs(ev_dir, exist_ok=True)
+    os.makedirs(rp_dir, exist_ok=True)
     for hit, v in known_hit:
         print(f"KNOWN-FINDING: property={pid} {hit.get('what', v['obligation'])}")
     exit_code = 0
     for v in reported:
         h = hashlib.sha256(_ob_key(v["unit"], v["obligation"]).encode()).hexdigest()[:12]
-        path = os.path.join(VERIF, "replays", pid, f"{h}.json")
+        path = os.path.join(rp_dir, f"{h}.json")
         with open(path, "w") as fh:
             json.dump({"property": pid, "unit": v["unit"], "obligation": v["obligation"], "kind": v["kind"],
                        "inputs": (v.get("cex") or {}).get("inputs"), "decisions": (v.get("cex") or {}).get("decisions"),
@@ -407,7 +411,7 @@ def _decide(pid: str, tier: str, seed: int, reg: Any, own: list, results: dict, 
         "wall_s": round(wall, 2),
         "violations": len(reported),
     }
-    with open(os.path.join(VERIF, "evidence", f"{pid}.json"), "w") as fh:
+    with open(os.path.join(ev_dir, f"{pid}.json"), "w") as fh:
         json.dump(ev, fh, indent=1, default=str)
     with open(os.path.join(VERIF, "out", f"{pid}.units.json"), "w") as fh:
         json.dump(results, fh, indent=1, default=str)
